@@ -130,6 +130,56 @@ def repeated_input_case(args):
         sc.close()
 
 
+def grouped_case(args):
+    """a grouping component (written against the public API) sends one sub-stream carrier per batch, in order, and completes
+    the batches in another order (an early batch is completed late); a process merges each batch through a joined in-port.
+    Its outputs leave in the order the batches arrived -- and each holds exactly its own members, in order (C18)"""
+    seed, i = args
+    rng = random.Random(seed * 104759 + i)
+    hx = vlib.hx
+    sp = t3.Spec(maxtasks=rng.choice([2, 4]), bufsize=rng.choice([1, 2, 128]))
+    G = rng.randint(2, 4)
+    groups, spec = [], []
+    delays = [rng.choice([0, 100, 300, 600]) for _ in range(G)]
+    delays[0] = max(delays) + 300          # the first batch is completed last
+    for g in range(G):
+        carrier = "batch_%d.group" % g
+        sp.files[carrier] = "carrier %d\n" % g
+        members = []
+        for m in range(rng.randint(0, 3) if g else rng.randint(1, 3)):
+            q = "data/g%d/m%d.txt" % (g, m)
+            sp.files[q] = "content of %s\n" % q
+            members.append(q)
+        groups.append((carrier, members))
+        spec.append("%s %d %d %s" % (hx(carrier), delays[g], len(members), " ".join(hx(q) for q in members)))
+    gr = sp.raw("COMP groups %s %d %s" % (hx("grouper"), G, " ".join(spec)))
+    # a RAW node has no Proc object: wire the joiner by hand
+    mg = sp.proc(t3.RawProc("merge", "cat {i:b|join: } /dev/null > {o:o}", ins=[("b", [(gr, "groups")])], outs=[("o", "{i:b}.merged")], join={"b": " "}))
+    sp.raw("REC %s %d %s" % (hx("rec_merge_o"), mg, hx("o")))
+    sc = t3.Scratch()
+    try:
+        sc.plant(sp.files)
+        impl = t3.run_impl(sc, sp, timeout=60)
+        problems = []
+        if impl["rc"] != 0 or not impl["returned"]:
+            problems.append(("unexpected-failure", "exit %s: %s" % (impl["rc"], impl["stderr"][-200:])))
+        else:
+            p = os.path.join(sc.work, "REC.rec_merge_o")
+            got = [unhx(l.split()[1]) for l in open(p).read().splitlines() if l.startswith("IP ")] if os.path.exists(p) else None
+            want = [c + ".merged" for c, _ in groups]
+            if got != want:
+                problems.append(("order", "batches arrived as %s (completed after %s ms); out-port merge.o emitted %s" % ([c for c, _ in groups], delays, got)))
+            files = t3.data_files(impl["fs"])
+            for c, ms in groups:
+                exp = "".join(sp.files[q] for q in ms)
+                if files.get(c + ".merged") != exp:
+                    problems.append(("joined-content", "the task for %s (members %s) produced %r, its members concatenate to %r" % (c, ms, files.get(c + ".merged"), exp)))
+                    break
+        return {"spec": sp.text(), "bufsize": sp.bufsize, "problems": problems[:2], "ntasks": G, "rc": impl["rc"], "stderr": impl["stderr"][-200:], "yield": None, "wall": impl["wall"]}
+    finally:
+        sc.close()
+
+
 def run(rep, tier, seed):
     proved = vlib.prove(rep, MODULE, THEOREMS)
     ok, msg = vlib.build_ocaml()
@@ -138,6 +188,7 @@ def run(rep, tier, seed):
     n = 48 if tier == "quick" else 800
     results = t3.run_many(case, [(seed, i) for i in range(n)])
     results += t3.run_many(repeated_input_case, [(seed, i) for i in range(n // 8)])
+    results += t3.run_many(grouped_case, [(seed, i) for i in range(n // 8)])
     t3.report_t3(rep, MODULE, proved, results, "T3 recorder order")
     rep.cov["evaluations"] = len(results)
     rep.cov["distinct_nontrivial"] = len({r["spec"] for r in results if r["ntasks"] >= 3})
